@@ -51,6 +51,8 @@ var c18regexps = [][2]string{
 	{`^/mnt/([a-z]+)/`, "@$1:"},
 }
 
+const c18badPattern = "/broken/([^/]+"
+
 func (o c18op) String() string {
 	switch o.Kind {
 	case "add":
@@ -63,6 +65,9 @@ func (o c18op) String() string {
 	case "reset":
 		return "ResetKnownPathMapping()"
 	case "addre":
+		if o.Arg == len(c18regexps) {
+			return fmt.Sprintf("AddKnownPathRegexpMapping(%q,\"!\") under recover (the pattern does not compile)", c18badPattern)
+		}
 		return fmt.Sprintf("AddKnownPathRegexpMapping(%q,%q)", c18regexps[o.Arg][0], c18regexps[o.Arg][1])
 	case "removere":
 		return fmt.Sprintf("RemoveKnownPathRegexpMapping(%q)", c18regexps[o.Arg][0])
@@ -81,6 +86,7 @@ func c18ops() []c18op {
 	for i := range c18regexps {
 		ops = append(ops, c18op{"addre", i}, c18op{"removere", i})
 	}
+	ops = append(ops, c18op{"addre", len(c18regexps)}) // a pattern that does not compile: whatever the call does (it may panic), nothing is registered
 	ops = append(ops, c18op{"resetre", 0})
 	ops = append(ops, c18op{"Reset", 0}) // slog.Reset(): level and flags only; the mapping tables stay as they are
 	return ops
@@ -100,6 +106,10 @@ func c18apply(o c18op) {
 	case "reset":
 		slog.ResetKnownPathMapping()
 	case "addre":
+		if o.Arg == len(c18regexps) {
+			catch(func() { slog.AddKnownPathRegexpMapping(c18badPattern, "!") })
+			return
+		}
 		slog.AddKnownPathRegexpMapping(c18regexps[o.Arg][0], c18regexps[o.Arg][1])
 	case "removere":
 		slog.RemoveKnownPathRegexpMapping(c18regexps[o.Arg][0])
@@ -142,7 +152,9 @@ func c18modelApply(t c18tables, o c18op, home string) c18tables {
 	case "reset":
 		n.plain = map[string]string{}
 	case "addre":
-		n.re = append(n.re, c18regexps[o.Arg])
+		if o.Arg < len(c18regexps) {
+			n.re = append(n.re, c18regexps[o.Arg])
+		}
 	case "removere":
 		for i, r := range n.re {
 			if r[0] == c18regexps[o.Arg][0] {
